@@ -95,7 +95,7 @@ def run_damage(kind, damages, seed=0, tid=1):
             root = top
         # integer keys; values: three file-backed, two inline
         vals = [200000 + 40 * 100 + 1, 200000 + 36 * 100 + 2, 300000 + 36 * 100 + 4, 5, 100001, 200000 + 44 * 100 + 6, 7,
-                400000 + 12 * 100 + 3]
+                400000 + 40 * 100 + 3]
         for i, v in enumerate(vals * 2):
             obj.set(i, vm.to_py(v))
         obj.close()
